@@ -73,7 +73,7 @@ def run(ck):
         h("mismatch12", "mismatch", 2, hx(5)); exp["mismatch12"] = "ERR ProofVerificationError"
         # aggregate witness and flatten
         for i in range(3 if quick else 12):
-            ps = [[rng.scalar() for _ in range(rng.randrange(1, 9))] for _ in range(rng.randrange(1, 5))]
+            ps = [[rng.scalar() for _ in range(rng.randrange(1, 9))] for _ in range([1, 4, 9, 13, 2, 8, 12, 3, 16, 5, 11, 20][i % 12])]
             z, v = rng.scalar(), rng.scalar()
             arg = " | ".join(" ".join(hx(c) for c in p) for p in ps)
             h(f"aggw{i}", "aggw", hx(z), hx(v), arg); m(f"aggw{i}", "aggw", hx(z), hx(v), arg)
@@ -88,7 +88,7 @@ def run(ck):
                 arg2 = " | ".join(" ".join(hx(c) for c in p) for p in qs)
                 h(f"aggwz{i}_{zi}", "aggw", hx(z), hx(v), arg2); m(f"aggwz{i}_{zi}", "aggw", hx(z), hx(v), arg2)
                 ck.count(("aggz", deg, i, pos), kind="aggregate with a zero polynomial (" + pos + ")")
-            parts = [(rng.scalar(), rng.scalar()) for _ in range(rng.randrange(1, 6))]
+            parts = [(rng.scalar(), rng.scalar()) for _ in range([9, 3, 12, 1, 8, 20, 2, 16, 5, 10, 4, 33][i % 12])]
             want_c = horner([c for _, c in parts], v)
             fl = " ".join(hx(e) + " " + hx(c) for e, c in parts)
             h(f"flat{i}", "flatten", hx(v), hx(want_c), fl); m(f"flat{i}", "flatten", hx(v), fl)
